@@ -106,6 +106,17 @@ def gen_cases(tier, rng):
                         w = ['-c', vals[0]] + vals[1:]
                     cases.append('H:f=0 arg:c,cont:%s0:%s %s kind:container-overflow'
                                  % (kind, '/'.join(opts), A.argv_tok(w)))
+    # ... with the cardinality of the argument removed or replaced (fixed-size destinations install one of their own)
+    for kind in ('ai', 'ri', 'ti', 'bs', 'vb', 'ms', 'si', 'qi', 'vi'):
+        for card in ('card=none', 'card=max~2', 'card=exact~3', 'card=range~1~2'):
+            for seq in (['1', '2', '3'], ['7'], ['1', '2', '3', '4', '5', '6']):
+                vals = [v + ',1' for v in seq] if kind == 'ms' else (['1', 'x', '3'] + seq[3:] if kind == 'ti' and len(seq) > 1 else seq)
+                sep = ';' if kind == 'ms' else ','
+                for form in range(3):
+                    w = ['-c', sep.join(vals)] if form == 0 else ([x for v in vals for x in ('-c', v)] if form == 1 else ['-c', vals[0]] + vals[1:])
+                    for extra in ([], ['multi']):
+                        cases.append('H:f=0 arg:c,cont:%s0:%s %s kind:container-overflow'
+                                     % (kind, '/'.join([card] + extra), A.argv_tok(w)))
     # range-string destinations (bitset of 1024 positions in a heap block of its own, vector): positions at and
     # beyond the size, ranges across the end, huge values, malformed ranges (sanitizers only)
     for v in ('0', '1023', '1024', '1025', '1020-1030', '3,5000', '1087', '1088', '2048', '65536', '4294967296', '999999999999999999', '5-3', '1-', '-1', '1--2', '1,,2', '1-3[2]', '1-10{3,4}', '', 'a', '1000-1100[10]'):
@@ -177,6 +188,18 @@ def gen_cases(tier, rng):
         cases.append(af + ' '.join(toks) + ' argv:2d2d6172672d66696c65,66312e7061 kind:arg-file-nesting')
         cases.append('H:f=16 prog:%s arg:i:i0: arg:arg-file:af0: file:%s %s argv:- kind:arg-file-nesting'
                      % (A.hx('pnest'), A.hx('--arg-file f1.pa\n'), ' '.join(toks)))
+    # ... and the depth must survive the return from a nested file: a file that first names a harmless file and
+    # then itself (directly, through a second file, after two harmless ones)
+    plain = 'xfile:%s:%s ' % (A.hx('plain.pa'), A.hx('-i 3\n'))
+    for content in ('--arg-file plain.pa\n--arg-file f1.pa\n', '--arg-file plain.pa\n--arg-file plain.pa\n--arg-file=f1.pa\n',
+                    '-i 1\n--arg-file plain.pa\n-i 2\n--arg-file f1.pa\n'):
+        cases.append(af + plain + 'xfile:66312e7061:%s argv:2d2d6172672d66696c65,66312e7061 kind:arg-file-nesting' % A.hx(content))
+        cases.append('H:f=16 prog:%s arg:i:i0: arg:arg-file:af0: file:%s %sxfile:66312e7061:%s argv:- kind:arg-file-nesting'
+                     % (A.hx('pnest'), A.hx('--arg-file f1.pa\n'), plain, A.hx(content)))
+    cases.append(af + plain + 'xfile:66312e7061:%s xfile:66322e7061:%s argv:2d2d6172672d66696c65,66312e7061 kind:arg-file-nesting'
+                 % (A.hx('--arg-file f2.pa\n'), A.hx('--arg-file plain.pa\n--arg-file f1.pa\n')))
+    cases.append(af + plain + 'xfile:66312e7061:%s argv:2d2d6172672d66696c65,706c61696e2e7061,2d2d6172672d66696c65,66312e7061 kind:arg-file-nesting'
+                 % A.hx('--arg-file plain.pa\n--arg-file f1.pa\n'))
     # a directory where an argument file is expected: nothing to read, the evaluation must come back
     cases.append('H:f=0 arg:v:b0:init=0 arg:arg-file:af0: xdir:%s argv:2d2d6172672d66696c65,6431 kind:directory-as-file' % A.hx('d1'))
     cases.append('H:f=0 arg:v:b0:init=0 arg:arg-file:af0: xdir:%s argv:2d2d6172672d66696c653d6431,2d76 kind:directory-as-file' % A.hx('d1'))
